@@ -258,6 +258,58 @@ fn run_with_fault(
                 m.flush_sealed();
                 mid = Some(m.durable_view());
             }
+            if rng.chance(1, 2) {
+                // power loss right after the failed call instead of a clean shutdown: the crash
+                // image is synthesised from the journal of this very execution (everything the
+                // failed call and its error path issued included), the real recovery runs on it
+                let j = simfs::journal();
+                let k = j.events.len();
+                let mode = match rng.below(4) {
+                    0 => simfs::CrashMode::Strict,
+                    1 => simfs::CrashMode::Lucky,
+                    2 => simfs::CrashMode::OrderedPrefix(rng.usize(k + 1)),
+                    _ => simfs::CrashMode::Random(rng.next_u64()),
+                };
+                stats.inc("fault_then_crash");
+                let (img, info) = simfs::crash_image(&j, k, mode);
+                if info.pending_dirent_ops + info.pending_data_writes > 0 {
+                    stats.inc("fault_then_crash_with_pending_effects");
+                }
+                let mut allowed = vec![before_durable.clone(), after_durable.clone()];
+                if let Some(m) = &mid {
+                    allowed.push(m.clone());
+                }
+                let dir = root.parent().unwrap_or(root).join("img");
+                let (code, msg) = crate::crash::check_image(&img, &dir, &spec.cfg, &allowed, None);
+                if code != 0 {
+                    let (cls, text) = msg.split_once('|').unwrap_or(("recovery", msg.as_str()));
+                    if cls == "files" && !c20 {
+                        stats.inc("obs:files/after-failed-op-and-crash (files)");
+                        return Ok(());
+                    }
+                    let cls0 = cls.split('/').next().unwrap_or(cls);
+                    let files_kind = c20 && (cls0 == "files" || cls0 == "unopenable");
+                    return Err(Violation {
+                        tag: if files_kind { "files".into() } else { "fault".into() },
+                        class: if files_kind {
+                            format!("files/crash-after-failed-{}/{cls0}", op.name())
+                        } else {
+                            format!("fault/crash-after-failed-{}/{cls0}", op.name())
+                        },
+                        msg: format!(
+                            "after {} failed at {site}, a crash under outcome {mode:?} (pending dirent ops {}, pending data writes {}): {text}",
+                            op.name(),
+                            info.pending_dirent_ops,
+                            info.pending_data_writes
+                        ),
+                        at_op: i,
+                    });
+                }
+                if c20 {
+                    stats.inc("files_checked_after_failed_op_and_crash");
+                }
+                return Ok(());
+            }
             // clean reopen
             e.tree = None;
             e.snaps.clear();
